@@ -626,6 +626,10 @@ func genTTCase(r *rng, level int) ttCase {
 	if r.chance(1, 10) {
 		pts = r.rangeI(0, 1<<33-1<<24)
 	}
+	zeroStart := r.chance(1, 8) // the clock starts with the stream: the first page instance is stamped 0
+	if zeroStart {
+		pts = 0
+	}
 	useX28 := level >= 2 && r.chance(1, 4)
 	useM29 := level >= 2 && r.chance(1, 4)
 	if useX28 || useM29 {
@@ -687,7 +691,9 @@ func genTTCase(r *rng, level int) ttCase {
 				m.add(pts, subUnit(desig(29)))
 			}
 		}
-		pts += r.rangeI(1, 5*90000)
+		if !(k == 0 && zeroStart && pts == 0) {
+			pts += r.rangeI(1, 5*90000)
+		}
 		in := ttInstance{pts: pts}
 		h := ttHeader{mag: s.mag, tens: s.page / 10, units: s.page % 10, serial: s.serial, code: s.code, subtitle: true, erase: r.bool(),
 			c7to10: r.intn(16), newsflash: r.chance(1, 8), sub: [4]int{r.intn(16), r.intn(8), r.intn(16), r.intn(4)}}
@@ -976,7 +982,12 @@ func mutateTS(r *rng, ts []byte) []byte {
 	if n == 0 {
 		return md
 	}
-	switch r.intn(6) {
+	switch r.intn(8) {
+	case 6, 7: // parity errors: the top bit of a few payload bytes is inverted (a character of a row then fails its check)
+		for j := 1 + r.intn(12); j > 0; j-- {
+			k := r.intn(n)
+			md[k*188+4+r.intn(184)] ^= 0x80
+		}
 	case 0: // drop a packet
 		k := r.intn(n)
 		md = append(md[:k*188], md[(k+1)*188:]...)
